@@ -46,6 +46,20 @@ bool ParseContentLength(const std::string &str, size_t &value)
     value = result;
     return true;
 }
+
+//! 检查 str 是否为某个 method 名称的前缀（用于判定首行的 method 是否还没有接收完整）
+bool IsMethodPrefix(const std::string &str)
+{
+    const Method all_methods[] = {
+        Method::kGet, Method::kHead, Method::kPut, Method::kPost,
+        Method::kTrace, Method::kOptions, Method::kDelete
+    };
+    for (auto m : all_methods) {
+        if (MethodToString(m).compare(0, str.size(), str) == 0)
+            return true;
+    }
+    return false;
+}
 }
 
 RequestParser::~RequestParser()
@@ -68,6 +82,10 @@ size_t RequestParser::parse(const void *data_ptr, size_t data_size)
         auto method_str = str.substr(pos, method_str_end);
         auto method = StringToMethod(method_str);
         if (method == Method::kUnset) {
+            //! 还没有收到空格，且已收到的内容是某个 method 的前缀：method 还没有收完整，继续等待数据
+            if (method_str_end == std::string::npos && IsMethodPrefix(method_str))
+                return 0;
+
             state_ = State::kFail;
             return pos;
         }
